@@ -367,6 +367,11 @@ def lowlimb(ctx, config="all"):
                         roots = {total.Totality._value_root(None, v, a) for a in args}
                         if p in roots:
                             return "a branch on %s(param)" % cn.split("::")[-1]
+                # the condition reads the parameter's limb array as a whole (or a non-constant part of it, e.g.
+                # limbs[1..].iter().any(..)): the other limbs are observed
+                for al, proj in sl.arg_places:
+                    if al == p and not any(e[0] in ("cidx", "idx") for e in proj if isinstance(e, (list, tuple))) and sl.calls:
+                        return "a branch whose condition reads the whole limb array of the parameter"
             return None
 
         for bi, p, idx, dest in sorted(set(sites)):
@@ -387,6 +392,8 @@ def lowlimb(ctx, config="all"):
                     for s2 in v.blocks[bj]["stmts"]:
                         if s2["s"] == "assign" and s2["pl"]["l"] == 0 and any(
                                 o.get("o") in ("copy", "move") and o["l"] in fw.tainted for o in ir.operands_of_rvalue(s2["rv"])):
+                            if s2["rv"]["r"] == "agg" and s2["rv"].get("variant") == "Err":
+                                continue  # the failure payload carries the wrapped (low-bits) value by definition
                             outs.append(bj)
                     t2 = v.blocks[bj]["term"]
                     if t2["t"] == "call" and t2["dest"]["l"] == 0 and any(
@@ -421,6 +428,12 @@ class BwdCalls:
         self.v = view
         self.seen = set()
         self.calls = []
+        self.arg_places = []   # (argument local, projection) of every place rooted at an argument that the slice reads
+
+    def _place(self, l, proj):
+        if self.v.is_arg(l):
+            self.arg_places.append((l, proj))
+        self.local(l)
 
     def local(self, l):
         if l in self.seen or self.v.is_arg(l):
@@ -431,16 +444,16 @@ class BwdCalls:
                 self.calls.append((ir.callee_name(s["fn"]) or "?", s["args"]))
                 for a in s["args"]:
                     if a.get("o") in ("copy", "move"):
-                        self.local(a["l"])
+                        self._place(a["l"], a["p"])
             else:
                 rv = s.get("rv")
                 if rv is None:
                     continue
                 for o in ir.operands_of_rvalue(rv):
                     if o.get("o") in ("copy", "move"):
-                        self.local(o["l"])
+                        self._place(o["l"], o["p"])
                 if rv["r"] in ("ref", "discr"):
-                    self.local(rv["pl"]["l"])
+                    self._place(rv["pl"]["l"], rv["pl"]["p"])
 
 
 FALLIBLE_FROM_UNBOUNDED = [
